@@ -596,6 +596,7 @@ type decoderI interface {
 	isBytes() bool
 	wrapErr(v error, err *error)
 	swallow()
+	readArrayStart() int // read the start of an array off the stream (used by rpc to read a message piecemeal)
 
 	nextValueBytes() []byte // wrapper method, for use in tests
 	// getDecDriver() decDriverI
